@@ -42,6 +42,29 @@ READERS = [
 # entries that are not real commands (placeholders above) are dropped at import
 READERS = [r for r in READERS if not any("is absent" in a for a in r) and r[0] not in ("fill-empty",)]
 READERS.append(["fill-empty", "-v", "X", "--only-if-blank"])
+# verbs that move a bystander to a new name, and verbs that create a field under a (possibly vacated) bystander name:
+# the value must follow the rename and must not be touched by a later assignment to the vacated name
+RENAMERS = [["rename", "y,yy"], ["rename", "x,x2"], ["rename", "-r", "^z9$,zz9"], ["reorder", "-e", "-f", "y"]]
+CREATORS = [["put", "$y = NR"], ["cat", "-N", "y"], ["count-similar", "-g", "g", "-o", "y"], ["put", "$x = 1"], ["put", "unset $y"], ["cut", "-x", "-f", "y"], ["put", '$z9 = "n"']]
+READERS += RENAMERS + CREATORS
+READERS += RENAMERS  # weight
+
+
+def track(chain, bys):
+    """Returns {output_name: origin_bystander} for bystanders whose value no verb assigned."""
+    m = {b: b for b in bys}
+    for v in chain:
+        if v[0] == "rename":
+            old, new = v[-1].split(",")
+            old = old.strip("^$")
+            if old in m:
+                m[new] = m.pop(old)
+            elif new in m:
+                m.pop(new)
+        elif v in CREATORS:
+            name = {"$y = NR": "y", "$x = 1": "x", "unset $y": "y", '$z9 = "n"': "z9"}.get(v[-1]) if v[0] == "put" else ("y")
+            m.pop(name, None)
+    return m
 
 BY = ["x", "y", "z1", "z2", "z3", "z4", "z5", "z6", "z7", "z8", "z9", "zA"]
 
@@ -65,6 +88,9 @@ def case_strategy(draw):
         rows.append(r)
     nverbs = draw(st.integers(1, 3))
     chain = [draw(st.sampled_from(READERS)) for _ in range(nverbs)]
+    if draw(st.integers(0, 5)) == 0:
+        # a bystander is moved to a new name and a later verb creates/deletes a field under the vacated name
+        chain = [draw(st.sampled_from(RENAMERS)), draw(st.sampled_from(CREATORS))] + ([draw(st.sampled_from(READERS))] if draw(st.booleans()) else [])
     flag = draw(st.sampled_from(["", "-S", "-A", "-O"]))
     rpb = draw(st.sampled_from([None, 1, 2]))
     return {"rows": rows, "bys": bys, "chain": chain, "flag": flag, "fmt": fmt, "rpb": rpb}
@@ -160,17 +186,21 @@ def body(ctx, case):
         src = byid[rid]
         if d.get("g", d.get("h", d.get("G"))) is None and "nest" not in str(chain):
             pass
-        order = [k for k, _ in rec if k in bys]
-        if order != [b for b in bys if b in order]:
-            ctx.fail(case, "relative order of bystanders changed: %r" % order)
-        for b in bys:
-            if b in d:
+        tracked = track(chain, bys)
+        moved = any(k != o for k, o in tracked.items()) or len(tracked) != len(bys) or any(v[0] == "reorder" and "y" in v for v in chain)
+        if not moved:
+            order = [k for k, _ in rec if k in bys]
+            if order != [b for b in bys if b in order]:
+                ctx.fail(case, "relative order of bystanders changed: %r" % order)
+        for name, b in tracked.items():
+            if name in d:
                 compared += 1
-                if d[b] != src[b]:
-                    # header-row lookalike: a data row whose id equals a real id but came from a different block is impossible here
-                    ctx.fail(case, "bystander %s of record id=%s: input %r, output %r (args %r)" % (b, rid, src[b], d[b], args))
+                if d[name] != src[b]:
+                    ctx.fail(case, "bystander %s (output name %s) of record id=%s: input %r, output %r (args %r)" % (b, name, rid, src[b], d[name], args))
                 if canonical_differs(src[b]):
                     nontriv = True
+            elif any(n2 in d for n2 in tracked if n2 != name) and not any(v[0] in ("template", "merge-fields") for v in chain):
+                ctx.fail(case, "bystander %s (expected under name %s) is missing from record id=%s although its siblings are present (args %r): %r" % (b, name, rid, args, rec))
     ctx.case(case, nontriv and compared > 0, labels=("fmt-" + fmt, "flag" + flag, "wide" if len(bys) > 2 else "narrow"),
              sample={"args": args, "first_row": rows[0]} if nontriv else None)
     ctx.label("fields-compared", compared)
